@@ -248,17 +248,25 @@ def rule_process(ctx):
     # R3 / R4 stores into the package
     n = 0
     for fld, side, parser in (("http_request", "client", "HttpProcessors::parse_request"), ("http_response", "server", "HttpProcessors::parse_response")):
+        # every assignment that can supply ObservableHttpPackage.<fld> of the returned package - written into the field of a package built
+        # up front, or into a local of its own from which the package is built at the return
+        from ..engine import guards as GV
         stores = []
-        for i, j, s in b.iter_stmts():
-            if s["k"] == "assign" and any(isinstance(x, dict) and x.get("n") == fld for x in s["p"]["pr"]) and b.local_name(s["p"]["l"]) == "observable_http_package":
-                stores.append((i, j, s))
+        for (ai_, aj_, as_) in Q.aggregates(b, "ObservableHttpPackage"):
+            if as_["p"]["pr"] or fld not in as_["r"]["fields"]:
+                continue
+            k_ = as_["r"]["fields"].index(fld)
+            for (val_, conds_, (i_, j_)) in GV.assignments_of(P, b, S, {"l": as_["p"]["l"], "pr": [{"f": k_, "n": fld}]}):
+                tv_ = T.strip(val_)
+                if tv_[0] == "agg" and tv_[3] == "None":
+                    continue
+                if (i_, j_) not in [(x[0], x[1]) for x in stores]:
+                    stores.append((i_, j_, val_, conds_))
         if not stores:
-            ctx.cannot("R3", fld + ":store", "no store into observable_http_package.%s" % fld, ctx.loc(b))
+            ctx.cannot("R3", fld + ":store", "no assignment supplying ObservableHttpPackage.%s found" % fld, ctx.loc(b))
             continue
-        for (i, j, s) in stores:
+        for (i, j, val, conds) in stores:
             n += 1
-            val = S.rvalue(s["r"], i, j)
-            conds = Q.canon_conds(P, T.dom_conds(b, S, i))
             ea = endpoint_atoms(conds)
             flag = "%s_http_parsed" % side
             flag_clear = any(a[0] == flag and a[2] is False for a in ea)
@@ -495,7 +503,14 @@ def rule_twins(ctx):
     TW.twin_agreement(ctx, ctx.program, "TW", ("huginn_net_http",), floor=4)
 
 
+def rule_flow_lifetime(ctx):
+    """R5: an HTTP flow outlives the gaps between the segments of one message: whole-second lifetime (shared rule _ttl)"""
+    from . import _ttl
+    _ttl.cache_ttls(ctx, ctx.program, "R5", ("huginn_net_http",), 1)
+
+
 def run(ctx):
+    rule_flow_lifetime(ctx)
     rule_twins(ctx)
     rule_shared(ctx)
     rule_completeness(ctx)
